@@ -425,6 +425,83 @@ def run(ctx, scratch):
                 ctx.violation(site, 'implementation differs from the modelled closed form', case=g, expected=to_float(v),
                               observed=got, kind='model', **fields)
 
+        # ============================ (b2) the terms regenerated from activation.py / loss.py ======
+        # Gen/NpGnn.v holds the bodies of output / gradient / loss / loss_gradient translated from the current source
+        # (harness/translators/npexpr.py); Props/C19.v proves the property about their denotation.  Here the SAME terms
+        # are evaluated inside Coq over exact rationals (NumPy semantics of Model/NpExpr.v; exp / ln as finite tables of
+        # the float values) on the inputs the implementation just ran, and must reproduce its results: this validates
+        # the translator and the array semantics against NumPy.
+        import os
+        from .. import npexpr_eval as NE
+        from ..common import COQ
+        src_terms = {}
+        try:
+            src_terms = NE.load_terms(os.path.join(COQ, 'Gen', 'NpGnn.v'))
+        except (OSError, ValueError, IndexError) as e:
+            ctx.extra['source_terms_unreadable'] = str(e)
+        exprs, targets = [], []
+        ACT = {'relu': 'relu', 'sigmoid': 'sigmoid', 'softmax': 'softmax'}
+
+        def tabs_lit(tab):
+            return (clist(sorted(tab.exp.items()), lambda kv: '(%s, %s)' % (cq(kv[0]), cq(kv[1]))),
+                    clist(sorted(tab.ln.items()), lambda kv: '(%s, %s)' % (cq(kv[0]), cq(kv[1]))))
+
+        def add_src(term, envkind, g, want, site, fields):
+            if term not in src_terms:
+                return
+            sg = g['signal']
+            n, k = len(sg), len(sg[0])
+            tab = NE.Tables()
+            env = {'signal': NE.mat(sg)}
+            if envkind == 'sd':
+                env['direction'] = NE.mat(g['direction'])
+                coq_env = 'qenv_sd %s %s %d %d' % (qmat(sg), qmat(g['direction']), n, k)
+            elif envkind == 'sl':
+                env['labels'] = ('L', list(g['labels']))
+                coq_env = 'qenv_sl %s %s %d %d' % (qmat(sg), clist(g['labels'], cnat), n, k)
+            else:
+                coq_env = 'qenv_s %s %d %d' % (qmat(sg), n, k)
+            try:
+                NE.ref_eval(src_terms[term], env, tab)
+            except (ValueError, IndexError, KeyError, TypeError, ZeroDivisionError):
+                pass
+            et, lt = tabs_lit(tab)
+            exprs.append('mout (qresult (qdenote %s %s (%s) %s))' % (et, lt, coq_env, term))
+            targets.append((site, g, want, term, fields))
+        lim = 8 if quick else 40
+        seen = {}
+        for g, r in zip(grad_cases, grad_res):
+            if 'ok' not in r or g['name'] not in ACT:
+                continue
+            key = (g['name'], len(g['signal'][0]))
+            seen[key] = seen.get(key, 0) + 1
+            if seen[key] > lim:
+                continue
+            a = ACT[g['name']]
+            add_src('src_%s_output' % a, 's', g, r['ok']['output'], 'activation.output', dict(activation=g['name']))
+            add_src('src_%s_gradient' % a, 'sd', g, r['ok']['gradient'], 'activation.gradient', dict(activation=g['name']))
+        for g, r in zip(loss_cases, loss_res):
+            if 'ok' not in r:
+                continue
+            key = (g['name'], len(g['signal'][0]))
+            seen[key] = seen.get(key, 0) + 1
+            if seen[key] > lim:
+                continue
+            a = 'ce' if g['name'] == 'CrossEntropy' else 'bce'
+            add_src('src_%s_loss' % a, 'sl', g, [[r['ok']['loss']]], g['name'] + '.loss', dict(loss=g['name']))
+            add_src('src_%s_loss_gradient' % a, 'sl', g, r['ok']['gradient'], g['name'] + '.loss_gradient', dict(loss=g['name']))
+        vals = safe_coq_eval(ctx, 'c19src', ['Base.Util', 'Model.Gnn', 'Model.NpExpr', 'Gen.NpGnn'], exprs, prelude=PRELUDE, shard=40)
+        n_src = 0
+        for (site, g, want, term, fields), v in zip(targets, vals or []):
+            ctx.count('source_term:' + term, ('src', term, g.get('signal'), g.get('direction'), g.get('labels')), True)
+            n_src += 1
+            got = to_float(v)
+            if not mat_close(want, got, 1e-8):
+                ctx.violation(site, 'the term regenerated from the Python source (%s), evaluated with the array semantics of '
+                              'Model/NpExpr.v, differs from what the implementation returns' % term, case=g, expected=got,
+                              observed=want, kind='source_term', term=term, **fields)
+        ctx.extra['source_terms_evaluated'] = n_src
+
         # ============================ (c) sampler ==================================================
         samp_cases = []
         for _ in range(80 if quick else 1500):
